@@ -12,7 +12,8 @@ import SqlglotModel.Generated.C17
 
 namespace SqlglotModel.Properties.C17
 open SqlglotModel.Lineage
-open SqlglotModel.Generated.C17 (keyComps recursiveCalls recursiveCallsPassCache keyNormalisations refNormalisations)
+open SqlglotModel.Generated.C17 (keyComps recursiveCalls recursiveCallsPassCache keyNormalisations refNormalisations
+  expandAliasVariant)
 open SqlglotModel.Ident (Ident CaseFns Strategy asciiFns)
 
 /-- the configuration the current source induces -/
@@ -188,20 +189,20 @@ theorem cteTwice_ok :
     definition) and writing the same derived tables inline by hand (`expandQ (fun _ => none)`, no tags) give the same
     root and the same leaves for every output column — also for cyclic or dangling definitions (explicit error scope)
     and every fuel. -/
-theorem expand_then_lineage_eq_inline (b : Bool) (mk : String → Option String) (look : Look) (fuel : Nat)
-    (main : List LScope) (column : String) :
-    (lineageOne (genCfg b) (expandQ mk look fuel main).1 (expandQ mk look fuel main).2 column).1.leaves =
-      (lineageOne (genCfg b) (expandQ (fun _ => none) look fuel main).1 (expandQ (fun _ => none) look fuel main).2
-        column).1.leaves := by
-  obtain ⟨h1, h2⟩ := expandQ_sim mk (fun _ => none) look fuel main
+theorem expand_then_lineage_eq_inline (b : Bool) (mk : String → Option String) (al : AliasFn) (look : Look) (fuel : Nat)
+    (implicit : List (Nat × String)) (main : List LScope) (column : String) :
+    (lineageOne (genCfg b) (expandQA mk al look fuel implicit main).1 (expandQA mk al look fuel implicit main).2 column).1.leaves =
+      (lineageOne (genCfg b) (expandQA (fun _ => none) al look fuel implicit main).1
+        (expandQA (fun _ => none) al look fuel implicit main).2 column).1.leaves := by
+  obtain ⟨h1, h2⟩ := expandQA_sim mk (fun _ => none) al look fuel implicit main
   rw [h2]
   exact sources_arg_eq_inline b _ _ h1 _ column
 
 /-- `sources={'s2': 'SELECT t.a AS a FROM t', 's1': 'SELECT w.a AS x FROM s2 AS w'}`,
     main `SELECT p.x AS y, q.x AS z FROM s1 AS p CROSS JOIN s1 AS q` (a source referenced twice, a source using a source) -/
 def expDefs : List SrcDef :=
-  [ ⟨"s2", [.select [⟨"a", [("t", "a")], []⟩] noFb [("t", .table "t")]]⟩,
-    ⟨"s1", [.select [⟨"x", [("w", "a")], []⟩] noFb [("w", .table "s2")]]⟩ ]
+  [ { name := "s2", scopes := [.select [⟨"a", [("t", "a")], []⟩] noFb [("t", .table "t")]] },
+    { name := "s1", scopes := [.select [⟨"x", [("w", "a")], []⟩] noFb [("w", .table "s2")]] } ]
 
 def expMain : List LScope :=
   [ .select [⟨"y", [("p", "x")], []⟩, ⟨"z", [("q", "x")], []⟩] noFb [("p", .table "s1"), ("q", .table "s1")] ]
@@ -236,8 +237,8 @@ theorem expand_key_normalised_once (f : CaseFns) (s : Strategy) (defs : List Key
     obtain ⟨h1, h2⟩ := findKeyed_sound hd
     refine ⟨h1, ?_⟩
     obtain ⟨kd, hkd, heq⟩ := List.mem_map.mp h2
-    simp only [defKey, Prod.mk.injEq] at heq
-    exact ⟨kd, hkd, heq.1, heq.2⟩
+    subst heq
+    exact ⟨kd, hkd, h1, rfl⟩
   refine ⟨⟨?_, ?_⟩, hsound⟩
   · rintro ⟨d, hd⟩
     obtain ⟨_, kd, hkd, h1, _⟩ := hsound d hd
@@ -245,7 +246,7 @@ theorem expand_key_normalised_once (f : CaseFns) (s : Strategy) (defs : List Key
   · rintro ⟨kd, hkd, h1⟩
     simp only [lookupKeyed, hr]
     apply findKeyed_complete
-    exact ⟨kd.scopes, List.mem_map.mpr ⟨kd, hkd, by simp only [defKey, h1]⟩⟩
+    exact ⟨_, List.mem_map.mpr ⟨kd, hkd, rfl⟩, h1⟩
 
 /-- witness: `sources={'"Orders"': …}` referenced as `FROM "Orders"` under LOWERCASE.  One pass: key and reference
     both normalise to `Orders` and the definition is found.  A second pass has only the unquoted text `Orders` to
@@ -253,10 +254,53 @@ theorem expand_key_normalised_once (f : CaseFns) (s : Strategy) (defs : List Key
 theorem expand_key_double_normalisation_witness :
     normKey asciiFns .lowercase [⟨"Orders", true⟩] = "Orders" ∧
     defKey asciiFns .lowercase 2 [⟨"Orders", true⟩] = "orders" ∧
-    (lookupKeyed asciiFns .lowercase 1 [⟨[⟨"Orders", true⟩], []⟩] [("Orders", [⟨"Orders", true⟩])] "Orders").isSome = true ∧
-    (lookupKeyed asciiFns .lowercase 2 [⟨[⟨"Orders", true⟩], []⟩] [("Orders", [⟨"Orders", true⟩])] "Orders").isSome = false ∧
+    (lookupKeyed asciiFns .lowercase 1 [{ key := [⟨"Orders", true⟩], scopes := [] }] [("Orders", [⟨"Orders", true⟩])] "Orders").isSome = true ∧
+    (lookupKeyed asciiFns .lowercase 2 [{ key := [⟨"Orders", true⟩], scopes := [] }] [("Orders", [⟨"Orders", true⟩])] "Orders").isSome = false ∧
     -- an unquoted name survives a second pass (why plain lower-case source names never showed it)
-    (lookupKeyed asciiFns .lowercase 2 [⟨[⟨"Orders", false⟩], []⟩] [("Orders", [⟨"Orders", false⟩])] "Orders").isSome = true := by
+    (lookupKeyed asciiFns .lowercase 2 [{ key := [⟨"Orders", false⟩], scopes := [] }] [("Orders", [⟨"Orders", false⟩])] "Orders").isSome = true := by
+  decide +kernel
+
+
+/-! ### the alias of the derived table that replaces a source reference -/
+
+/-- table fact (decided against the regenerated data): `exp.expand` builds the alias from `node.alias or name`
+    (name = the full normalised dotted name).  Any other expression in the source breaks the build. -/
+theorem generated_expand_alias_ok : expandAliasVariant = AliasVariant.fullName := by decide
+
+/-- **distinct names, distinct aliases**: the alias text `exp.expand` gives an UNALIASED reference is the full
+    normalised dotted name, so two references with distinct normalised names get distinct alias texts (they cannot
+    collide in one scope) — trivially for every strategy and all case functions, since no case function is involved;
+    and after `to_identifier` + the identifier normalisation of `qualify` the aliases are still distinct whenever both
+    names need quoting (a dotted name always does) and the strategy leaves quoted identifiers alone. -/
+theorem expand_alias_unique_per_reference (k1 k2 : String) (h : k1 ≠ k2) :
+    expandAliasText .fullName none k1 ≠ expandAliasText .fullName none k2 ∧
+      ∀ (f : CaseFns) (s : Strategy), SqlglotModel.Ident.folds s true = false →
+        isSafeIdent k1 = false → isSafeIdent k2 = false →
+        expandAlias .fullName f s false "" k1 ≠ expandAlias .fullName f s false "" k2 := by
+  refine ⟨h, ?_⟩
+  intro f s hs h1 h2
+  simp [expandAlias, expandAliasText, h1, h2, SqlglotModel.Ident.normalize, hs, h]
+
+/-- witness for the last-part variant (`node.alias_or_name`): `stg.orders` and `mart.orders` both become `orders`
+    (→ 'Alias already used', or silent capture of an outer `orders`); with the full name they stay apart -/
+theorem expand_alias_last_part_witness :
+    expandAliasText .aliasOrName none "stg.orders" = "orders" ∧
+    expandAliasText .aliasOrName none "mart.orders" = "orders" ∧
+    expandAlias .aliasOrName asciiFns .lowercase false "" "stg.orders" =
+      expandAlias .aliasOrName asciiFns .lowercase false "" "mart.orders" ∧
+    expandAlias .fullName asciiFns .lowercase false "" "stg.orders" = "stg.orders" ∧
+    expandAlias .fullName asciiFns .lowercase false "" "mart.orders" = "mart.orders" ∧
+    -- an explicit alias is kept
+    expandAlias .aliasOrName asciiFns .lowercase true "p" "stg.orders" = "p" := by
+  decide +kernel
+
+/-- witness (clean-tree corner, see known finding): the alias forgets that a name was QUOTED — the sources
+    `"Orders1"` and `orders1` have distinct normalised names under LOWERCASE but, both being safe identifiers, their
+    aliases are written unquoted and fold to the same `orders1` -/
+theorem expand_alias_forgets_quoting_witness :
+    SqlglotModel.Lineage.normKey asciiFns .lowercase [⟨"Orders1", true⟩] ≠
+      SqlglotModel.Lineage.normKey asciiFns .lowercase [⟨"orders1", false⟩] ∧
+    expandAlias .fullName asciiFns .lowercase false "" "Orders1" = expandAlias .fullName asciiFns .lowercase false "" "orders1" := by
   decide +kernel
 
 end SqlglotModel.Properties.C17
